@@ -156,6 +156,7 @@ func runTScenario(t *testing.T, raw []byte) (lines []M, problem string) {
 				}
 				rec.lines = append(rec.lines, M{"ev": "FnStart", "x": x, "L": len(sc.Stack) + 1, "k": k, "t": rec.vnow(),
 					"att": att, "exe": exe, "ret": ret, "hdg": hdg, "st": int64(exec.StartTime().Sub(rec.t0) / unit), "el": int64(exec.ElapsedTime() / unit),
+					"ast": int64(exec.AttemptStartTime().Sub(rec.t0) / unit), "ael": int64(exec.ElapsedAttemptTime() / unit),
 					"lr": resName(exec.LastResult()), "le": projectErrT(le), "hedge": exec.IsHedge(), "canceled": canc})
 				rec.mu.Unlock()
 				f := sc.FnDefault
